@@ -1,0 +1,73 @@
+//! verif hook: probe commands for the language server's position arithmetic (property C14).
+//! Only compiled with `--cfg mos_verif`; reached through `mos verif-probe`.
+use mos_core::parser::code_map::CodeMap;
+use serde_json::{json, Value};
+use std::panic::{catch_unwind, AssertUnwindSafe};
+
+fn text_of(req: &Value) -> String {
+    req.get("text")
+        .and_then(|s| s.as_str())
+        .unwrap_or("")
+        .to_string()
+}
+
+fn numbers(req: &Value, key: &str) -> Vec<u64> {
+    req.get(key)
+        .and_then(|v| v.as_array())
+        .map(|a| a.iter().filter_map(|x| x.as_u64()).collect())
+        .unwrap_or_default()
+}
+
+/// `{"cmd":"c14_deltas","text":..,"spans":[[low,high,type],..]}`: semantic_highlighting::to_deltas
+pub fn cmd_deltas(req: &Value) -> Value {
+    let text = text_of(req);
+    let spans: Vec<(u64, u64, usize)> = req
+        .get("spans")
+        .and_then(|v| v.as_array())
+        .map(|a| {
+            a.iter()
+                .filter_map(|s| {
+                    let s = s.as_array()?;
+                    Some((
+                        s.get(0)?.as_u64()?,
+                        s.get(1)?.as_u64()?,
+                        s.get(2)?.as_u64()? as usize,
+                    ))
+                })
+                .collect()
+        })
+        .unwrap_or_default();
+    let (data, type_map) = crate::lsp::verif_to_deltas(&text, &spans);
+    json!({ "data": data, "type_map": type_map })
+}
+
+/// `{"cmd":"c14_codemap","text":..,"lines":[..],"positions":[..]}`: File::source_line and File::find_line_col,
+/// every item evaluated on its own (a panic is reported for that item)
+pub fn cmd_codemap(req: &Value) -> Value {
+    let text = text_of(req);
+    let mut code_map = CodeMap::default();
+    let file = code_map.add_file("verif.asm".to_string(), text);
+    let source_lines: Vec<Value> = numbers(req, "lines")
+        .into_iter()
+        .map(|line| {
+            match catch_unwind(AssertUnwindSafe(|| {
+                file.source_line(line as usize).to_string()
+            })) {
+                Ok(l) => json!({ "ok": l }),
+                Err(_) => json!({ "panic": true }),
+            }
+        })
+        .collect();
+    let line_cols: Vec<Value> = numbers(req, "positions")
+        .into_iter()
+        .map(|pos| {
+            match catch_unwind(AssertUnwindSafe(|| {
+                file.find_line_col(file.span.low() + pos)
+            })) {
+                Ok(lc) => json!({ "ok": [lc.line, lc.column] }),
+                Err(_) => json!({ "panic": true }),
+            }
+        })
+        .collect();
+    json!({ "num_lines": file.num_lines(), "source_line": source_lines, "find_line_col": line_cols })
+}
